@@ -183,6 +183,23 @@ class MailboxProgram(Program):
         elif k == 'await_fut':
             fut = self.take(st, op[1])
             yield st, fut
+        elif k == 'poll_once':
+            # poll a stored future once with a no-op waker and keep it (e.g. `timeout(d, &mut fut)` that elapsed)
+            oid = self.H(st, op[1])
+            for l, pv in self.poll_future_obj(st, oid):
+                if l.status != 'running' or pv == 'YIELD':
+                    raise Unsupported("poll_once interrupted")
+                d = self.eng.discriminant_of(l, pv).v
+                if d == 0:
+                    res = pv.fields.get(('v', 'Ready', 0))
+                    l.event('op_end', name, pc, k, 'Ready(' + self.sys.describe_result(l, res) + ')')
+                    val = l.objs.get(oid)
+                    l.objs[oid] = TOMB
+                    l.meta[('h', op[1])] = None
+                    self.drop_now(l, val, None, 'completed future')
+                else:
+                    l.event('op_end', name, pc, k, 'Pending')
+                yield l, None
         elif k == 'join':
             s2, fut = self.call(st, 'OwningAddr::<A>::join', [self.href(st, op[1], True)])
             yield s2, fut
@@ -525,7 +542,8 @@ def oracle_owning(tr, status, scripts):
     if somes > 1:
         v.append(f"the actor value was handed out {somes} times")
     joins = [o for o in _ops(tr) if o['kind'] in ('join', 'await_fut', 'consume')]
-    if graceful and joins and all(o['end'] is not None for o in joins) and somes == 0:
+    parked = any(o['kind'] == 'poll_once' and str(o['result']) == 'Pending' for o in _ops(tr))
+    if graceful and joins and all(o['end'] is not None for o in joins) and somes == 0 and not parked:
         v.append("the actor terminated gracefully and every join completed, but none of them yielded the actor")
     if status == 'panicked':
         v.append("a client task panicked while joining")
